@@ -1,2 +1,59 @@
-(* C01 — value round-trip. (theorems added by Proofs/RoundTrip.v) *)
-From VF Require Import Model.Writer Proofs.CodecCorrect Gen.GeneratedOk.
+(* C01 — value round trip: parsing what was dumped gives the value back. *)
+From VF Require Import Model.Writer Proofs.CodecCorrect Proofs.SizeProps Proofs.RoundTrip Proofs.ValueRoundTrip Gen.GeneratedOk.
+Open Scope string_scope. Open Scope list_scope. Open Scope Z_scope.
+
+(* For every configuration with a proper byte order, every sequential type with fixed counts (`flat` and `rt_ty`: integers of every width
+   and signedness, floats, chars, LEB128, void, enums, pointers, fixed arrays, packed structures of plain fields with distinct names, nested to
+   any depth), every typed value v of it (`has_ty`), every output position:  if dumping v succeeds with bytes bs, then parsing bs — wherever
+   it sits in a stream, whatever precedes and follows it, in every context and with every fuel — returns v (up to the recorded field sizes)
+   and ends exactly |bs| bytes later. *)
+Theorem value_round_trip : forall c, endian_ok (c_endian c) -> forall fuel t, flat t = true -> rt_ty c t = true ->
+  forall v wpos bs, has_ty c t v -> write_ty c t v wpos = Ok bs ->
+    forall pre rest ctx, exists v', read_ty c fuel t (pre ++ bs ++ rest) (zlen pre) ctx = Ok (v', zlen pre + zlen bs) /\ strip v' = strip v.
+Proof. exact parse_dump_identity. Qed.
+Theorem entry_point_round_trip : forall c, endian_ok (c_endian c) -> forall t, flat t = true -> rt_ty c t = true ->
+  forall v bs rest, has_ty c t v -> dumps c t v = Ok bs ->
+    exists v', read_top c t (bs ++ rest) 0 = Ok (v', zlen bs) /\ strip v' = strip v.
+Proof. exact read_top_dumps. Qed.
+(* writing never alters a number: a value that does not fit the width is rejected, a value that fits decodes to itself *)
+Theorem out_of_range_is_rejected : forall e n signed v, fits n signed v = false -> int_to_bytes e n signed v = Err ERange.
+Proof. exact int_reject. Qed.
+Theorem in_range_is_exact : forall e n signed v bs, (e = LE \/ e = BE) ->
+  int_to_bytes e n signed v = Ok bs -> length bs = n /\ Bytes bs /\ int_from_bytes e signed bs = v.
+Proof. exact int_roundtrip. Qed.
+Theorem leb128_round_trip : forall n bs rest, (leb_write false n = Ok bs -> leb_read false (bs ++ rest) = Ok (n, rest)).
+Proof. exact uleb_roundtrip. Qed.
+Theorem sleb128_round_trip : forall n bs rest, (leb_write true n = Ok bs -> leb_read true (bs ++ rest) = Ok (n, rest)).
+Proof. exact ileb_roundtrip. Qed.
+
+Print Assumptions value_round_trip.
+Print Assumptions entry_point_round_trip.
+Print Assumptions out_of_range_is_rejected.
+
+(* non-vacuity *)
+Definition ex_cfg := mkCfg ">" (PInt 4 false true) 4 [] [].
+Definition u8 := TPrim (PInt 1 false true) 1.
+Definition ex_ty := TStruct "m" [Fld "a" false (TPrim (PInt 3 true false) 4) None None; Fld "l" false (TPrim (PLeb true) 1) None None;
+                                 Fld "d" false (TArr (TPrim (PInt 2 true true) 2) (LFixed 2)) None None;
+                                 Fld "s" false (TArr (TPrim PChar 1) (LFixed 3)) None None;
+                                 Fld "in" false (TStruct "i" [Fld "p" false (TPtr u8) None None; Fld "f" false (TPrim (PFloat 4) 4) None None] false) None None;
+                                 Fld "g" false (TArr (TArr (TPrim (PLeb false) 1) (LFixed 2)) (LFixed 2)) None None] false.
+Definition ex_val := VStruct [("a", VInt (-70000)); ("l", VInt (-300)); ("d", VList [VInt (-2); VInt 515]); ("s", VBytes [104; 105; 0]);
+                              ("in", VStruct [("p", VInt 4096); ("f", VFloat 1065353216)] []);
+                              ("g", VList [VList [VInt 1; VInt 300]; VList [VInt 0; VInt 70000]])] [].
+Example ex_class : flat ex_ty = true /\ rt_ty ex_cfg ex_ty = true.
+Proof. vm_compute. split; reflexivity. Qed.
+Example ex_typed : has_ty ex_cfg ex_ty ex_val.
+Proof.
+  cbn. eexists _, _. split; [reflexivity|]. split; [reflexivity|].
+  repeat split; try (eexists; split; [reflexivity|]); cbn; try exact I.
+  - eexists. split; [reflexivity|]. split; [reflexivity|]. repeat constructor.
+  - eexists. split; reflexivity.
+  - eexists _, _. split; [reflexivity|]. split; [reflexivity|]. repeat split; eexists; split; reflexivity || exact I.
+  - eexists. split; [reflexivity|]. split; [reflexivity|]. repeat constructor; (eexists; split; [reflexivity|]; split; [reflexivity|]; repeat constructor).
+Qed.
+Example ex_run : exists bs, dumps ex_cfg ex_ty ex_val = Ok bs /\ zlen bs = 27 /\
+  rvz_eqb (read_top ex_cfg ex_ty (bs ++ [9; 9]) 0) (Ok (VStruct [("a", VInt (-70000)); ("l", VInt (-300)); ("d", VList [VInt (-2); VInt 515]); ("s", VBytes [104; 105; 0]);
+                              ("in", VStruct [("p", VInt 4096); ("f", VFloat 1065353216)] [("p", 4); ("f", 4)]);
+                              ("g", VList [VList [VInt 1; VInt 300]; VList [VInt 0; VInt 70000]])] [("a", 3); ("l", 2); ("d", 4); ("s", 3); ("in", 8); ("g", 7)], 27)) = true.
+Proof. eexists. split; [vm_compute; reflexivity|]. split; vm_compute; reflexivity. Qed.
